@@ -1,7 +1,8 @@
 (* extrema_interpolated_phase (cyclepoints/phase.py), C17.  Exact rational model in quarter-turn
    units: rise midpoint -1, peak 0, decay midpoint +1, trough -2 (the "-pi" series) or +2 (the
-   "+pi" series).  None = NaN.  The end mask is the repaired one (span ends at the last sample
-   where the phase still changes). *)
+   "+pi" series).  None = NaN.  Both masks are the repaired ones: the span starts at the first and ends at the last
+   sample where the phase changes (before the repair: first INCREASING step at the start, and a
+   mis-indexed slice at the end). *)
 From Coq Require Import List Bool Arith ZArith QArith Qabs.
 Import ListNotations.
 From ByC Require Import Base.Result Base.ListAux Harness.Compare.
@@ -71,7 +72,7 @@ Definition mask_from (k : nat) (l : list (option Q)) : list (option Q) :=
 Definition merge_phases (tpi tnpi : list Q) : result (list (option Q)) :=
   let n := length tnpi in
   let pha := map Some (merge tpi tnpi) in
-  match find_idx (fun i => is_pos (step pha i)) (seq 0 (n - 1)) with
+  match find_idx (fun i => is_nonzero (step pha i)) (seq 0 (n - 1)) with
   | None => Err EOther                               (* StopIteration *)
   | Some first =>
     let pha1 := mask_before first pha in
@@ -98,12 +99,27 @@ Definition merge_phases_legacy (tpi tnpi : list Q) : result (list (option Q)) :=
     end
   end.
 
+(* the start mask as it was before its repair (first step > 0), with the repaired end mask *)
+Definition merge_phases_legacy_start (tpi tnpi : list Q) : result (list (option Q)) :=
+  let n := length tnpi in
+  let pha := map Some (merge tpi tnpi) in
+  match find_idx (fun i => is_pos (step pha i)) (seq 0 (n - 1)) with
+  | None => Err EOther
+  | Some first =>
+    let pha1 := mask_before first pha in
+    match find_idx (fun k => is_nonzero (step pha1 (n - 2 - k))) (seq 0 (n - 1)) with
+    | None => Err EOther
+    | Some k => Ok (mask_from (n - k) pha1)
+    end
+  end.
+
 Definition phase_gen (mp : list Q -> list Q -> result (list (option Q))) (c : cps) : result (list (option Q)) :=
   do tpi <- interp (anchors 2 c) (c_n c);
   do tnpi <- interp (anchors (-2) c) (c_n c);
   mp tpi tnpi.
 Definition phase := phase_gen merge_phases.
 Definition phase_legacy := phase_gen merge_phases_legacy.
+Definition phase_legacy_start := phase_gen merge_phases_legacy_start.
 
 (* ------------------------------------------------------------------------------------------ *)
 (* correspondence: the implementation's values arrive divided by pi/2 as decimal fractions
